@@ -166,6 +166,11 @@ func gen(g *vh.Gen) {
 	g.Emit("life", "o0:S,p0:data,ES,k,DS,f0,DS")
 	g.Emit("life", "o0:P,p0:dele,o1:S,p1:helo,EP,ES,k,DP,f0,DP,DS,f1,DS")
 	g.Emit("life", "ES,EP,k,DS,DP")
+	// THOROUGH tier only (~35 s of real time): sessions kept talking for 14 s and 16 s after Drain was called — a Drain that
+	// gives up after some grace period of its own (whatever its length up to that) is seen returning while they are open
+	for i := 0; i < g.N(0, 1); i++ {
+		g.Emit("life", "o0:S,p0:helo,o1:P,p1:pass,k,DS,DP,b0:14000,DS,DP,b1:16000,DS,DP,f0,f1,DS,DP")
+	}
 	// POP3 with STLS available: a session upgrades before / after shutdown was requested and completes its dialogue
 	g.Emit("stls", "o0:P,k,t0,p0:dele,DP,f0,DP")
 	g.Emit("stls", "o0:P,t0,k,p0:dele,f0,DP")
